@@ -95,6 +95,22 @@ def run(shard, rec):
                 bad = 'not deterministic (list)'
             if not bad and n >= 1 and f(s) != flat[0]:
                 bad = 'first of list != scalar'
+        if not bad and isinstance(n, int) and n >= 1:
+            # call history on one object must not matter: smaller request, other input, then the larger request again; prefix property
+            g = thresha.PRF(key, bound)
+            small = g(s, max(1, n // 3))
+            again = g(s, n)                      # same input, immediately after a shorter request
+            longer = g(s, n + 5)
+            other = g(s + b'x', n)
+            if g(s, n) != again:
+                again = None                      # ... and after a request for another input
+            if again != flat:
+                bad = f'result depends on the call history of the PRF object: {(again or ["(changes again after a request for another input)"])[:6]}... after a shorter request for the same input, {flat[:6]}... from a fresh object'
+            elif small != flat[:len(small)] or longer[:n] != flat:
+                bad = 'requests of different length for one input are not prefixes of each other'
+            elif bound > 2 ** 16 and n >= 2 and other == flat:
+                bad = 'different inputs give identical outputs'
+            rec.count('history_sequences')
         if not bad:
             for v in flat:
                 if not (isinstance(v, int) or (np is not None and isinstance(v, np.integer))) or not 0 <= v < bound:
